@@ -249,6 +249,8 @@ func K8() *Entry {
 		F("TagDash", JSON("-")), F("TagEmpty", JSON("")), F("TagDashOmit", JSON("-,omitempty")),
 		F("ID", JSON("id")), F("AWSRoleARNs", Rep()), F("DurMP", Sc(ir.Int64)), F("Overridden", JSON("tag_loses")),
 		F("ByTypeKey"), F("Child", MsgT("NamedChild")), F("Children", MsgT("NamedChild"), Rep()),
+		// json tags and overrides are taken verbatim: camelCase, acronyms, hyphens
+		F("CamelTagged", JSON("camelTagged")), F("MixedTag", Sc(ir.Int64), JSON("sessionTTL,omitempty")), F("HyphenTag", JSON("single-item")), F("CamelOverride"),
 		// fields named like the synthetic fields of a map entry, next to maps of the same element type
 		F("Key"), F("Value"), F("ZoneLabels", MapOf()), F("ZoneCounts", Sc(ir.Int64), MapOf()), F("value_count", Sc(ir.Int64)),
 	)
@@ -258,6 +260,7 @@ func K8() *Entry {
 	c := BaseConfig("Naming")
 	c.NameOverrides = map[string]string{
 		"Naming.AWSRoleARNs":          "aws_arns",
+		"Naming.CamelOverride":        "camelOverride",
 		"Naming.DurMP":                "dur_mp",
 		"Naming.Overridden":           "override_wins",
 		"Naming.ByTypeKey":            "by_type_key_renamed",
